@@ -4,6 +4,7 @@ against PewModel/Thermo.lean (mechanisms `readRows`, `readCols`, `readParams`, `
 specification `specImg`, `specParams`/`specScantime`, `otherFile`/`specSniffOther`).  Both layouts are written from one
 acquisition; every specification value comes from the driver (computed from the acquisition, never from a reader).
 Texts outside the export format (kind "text") are compared with the model only.
+A '#' is data everywhere (the readers call np.genfromtxt with comments=None since e68affa; corpus fixed-e68affa-*.json).
 """
 import logging
 import math
@@ -108,8 +109,9 @@ class C03(Prop):
     id = "C03"
     anchored = ["src/pewlib/io/thermo.py"]
     cases = {"quick": 400, "thorough": 8000}
-    rule = ("one random acquisition (1..6 samples, 2..11 scans, 1..4 elements with spaces/brackets/32-character labels, any "
-            "subset of the channels X/Y/Time/Analog/Counter, numbers with signs and exponents) written in both layouts with "
+    rule = ("one random acquisition (1..6 samples, 2..11 scans, 1..4 elements with spaces/brackets/'#'/32-character labels, "
+            "sample names with '#' ('Sample #1', '#3'), any subset of the channels X/Y/Time/Analog/Counter, numbers with signs "
+            "and exponents, now and then a '#' text in a field of the X/Y channels) written in both layouts with "
             "',' or ';' and '.' or ',' decimals, BOM on/off, CRLF/LF; explicit readers for every channel, params, sniffing, "
             "and load (use_analog on/off), every one compared with the specification the driver computes from the acquisition "
             "(pixels, element order, times of the first element, rounded mean interval, layout name); 14% of the cases: exports "
@@ -117,7 +119,7 @@ class C03(Prop):
             "written as 0/12/-3/1e5 for the first records of the columns layout and/or the first samples of the rows layout), "
             "fractional values only later; 10%: non-export text files for the sniffer (specification: the constant 'unknown' on "
             "every text whose first and third line do not mention MainRuns); 18%: texts outside the export format (kind 'text': a "
-            "small export edited line by line — blank/comment lines, rows cut short or too long, missing sample rows or header "
+            "small export edited line by line — blank lines and lines starting with '#', rows cut short or too long, missing sample rows or header "
             "lines, missing trailing delimiters or final terminator, '#' and blanks in names, non-integer/negative/missing scan "
             "numbers, ragged MainRuns lines, single selected lines, names with one line), where the property is silent and pewlib "
             "is compared with the model only; non-trivial = every export and every text case")
@@ -126,7 +128,8 @@ class C03(Prop):
         "loose mode), a scan field of the columns layout to int(token) (-1 when that fails); "
         "fixed-width unicode storage truncates; np.unique(return_index)+argsort = order of first appearance; "
         "boolean-mask and usecols selection = filtering the zipped columns; structured assignment broadcasts a single column; "
-        "np.genfromtxt line handling as modelled by `gfSplit` (comment cut at '#', strip(' \\r\\n'), empty lines skipped, "
+        "np.genfromtxt(comments=None) line handling as modelled by `gfSplit` (no comment character: '#' is data; "
+        "strip(' \\r\\n'), empty lines skipped, "
         "equal field counts without usecols, a row valid with usecols once it reaches the last selected column)",
         "the utf-8-sig codec removes the BOM; universal newlines; both layouts start with the delimiter",
         "the files written by harness/gen_thermo.py are compared in every case, field by field and (read back through Python's "
@@ -135,8 +138,9 @@ class C03(Prop):
         "scantime: exact rational mean of differences; a value within 1e-6 of a rounding tie at the 4th decimal is not compared",
     ]
     assumptions = [
-        "labels and sample names: non-empty, at most 32 characters, no delimiter, no ',' , no '#', not containing a channel "
-        "name or 'MainRuns'; every line ends with the delimiter (as Qtegra writes it)",
+        "labels: non-empty, at most 32 characters; labels and sample names: no delimiter, no ',', not containing a channel "
+        "name or 'MainRuns' (a '#' is allowed anywhere: sample names, labels, fields); sample names of the columns layout "
+        "non-empty; every line ends with the delimiter (as Qtegra writes it)",
         "a channel that was not exported: the readers raise (compared with the model only, the property is silent)",
         "texts outside the export format (kind 'text'): compared with the model only. strict (rows layout, edits that only "
         "exercise str.split of the header rows and np.genfromtxt(usecols) on the sample rows; unedited columns exports): "
@@ -168,6 +172,19 @@ class C03(Prop):
             for kind in ("readers", "load"):
                 for ua in (False, True):
                     yield {**c, "kind": kind, "use_analog": ua}
+        # '#' is data (e68affa): in sample names (first, middle, last sample), in labels, in the fields of a channel that is
+        # not read; every delimiter/decimal pair, explicit readers and load, Counter and Analog
+        for combo in ((",", "."), (";", "."), (";", ",")):
+            for samples, elements in ((["S#1", "S2"], ["31P"]), (["S1", "S#2", "S3"], ["31P", "153Eu"]), (["1", "Sample #2"], ["#31P", "44Ca#"]),
+                                      (["#"], ["31P"]), (["Sample 1", "Sample 2"], ["44Ca#"]), (["a # b #", "#3", "S#"], ["#", "63Cu #2"])):
+                chans = ["X [u]", "Time", "Analog", "Counter"]
+                dec = (lambda t: t.replace(".", ",")) if combo[1] == "," else (lambda t: t)
+                toks = [[[[dec("#N/A" if (i + s + e) % 2 else "1.5 # x"), dec(f"{0.2 + 0.4 * e + 0.25 * s:.4f}"), dec(f"-0.{i}{s}{e}5"),
+                           dec(f"{100 * i + 10 * s + e}.5")] for e in range(len(elements))] for s in range(2)] for i in range(len(samples))]
+                for kind, ua in (("readers", False), ("load", False), ("load", True)):
+                    yield {"kind": kind, "use_analog": ua, "delimiter": combo[0], "decimal": combo[1], "bom": False, "eol": "\r\n",
+                           "explicit_delimiter": kind == "readers" and combo[0] == ";",
+                           "acq": {"samples": samples, "nscans": 2, "elements": elements, "channels": chans, "tokens": toks}}
         # more than 10000 scans: scan numbers with five digits
         toks = [[[[str((7 * s) % 11)]] for s in range(10001)]]
         yield {"kind": "readers", "use_analog": False, "delimiter": ",", "decimal": ".", "bom": False, "eol": "\r\n",
@@ -245,6 +262,13 @@ class C03(Prop):
                  f"delim{delim}dec{case['decimal']}", "bom" if case["bom"] else "no-bom", "crlf" if case["eol"] == "\r\n" else "lf",
                  "explicit-delimiter" if dl else "auto-delimiter", "channels:" + "+".join(c[0] for c in a["channels"]), case["kind"],
                  "model-splits-the-text" if rep["resplit"] else "model-reads-the-table"}
+        if any("#" in x for x in a["samples"]):
+            feats.add("hash:sample-name")
+            feats.add("hash:sample-name:" + ("first" if "#" in a["samples"][0] else "later"))
+        if any("#" in x for x in a["elements"]):
+            feats.add("hash:label")
+        if any("#" in t for t in toks):
+            feats.add("hash:field-of-unread-channel")
         # lines of each layout before the first value written with the decimal mark (when there is one at all)
         for lay, t, hdr, lab in (("rows", trows, 4, 2), ("cols", tcols, 2, 4)):
             first = next((j for j, r in enumerate(t) if j >= hdr and any(case["decimal"] in f for f in r[lab:])), None)
